@@ -33,6 +33,9 @@ CHECKS = {
             'invalidate_hnsw_cache of the matching collection on all success paths (vector-preserving metadata rewrites exempt), '
             'R06b the cache has two writers only and readers take index and key list from one guard acquisition',
             'must-pass-through on MIR CFG, def-use slices for key provenance, who-may-write via guard kinds'),
+    'C08': ('§3 C08', 'R08a every slab field that SlabRouter::clear wipes and that code outside the router writes through is written '
+            'again on the restore path of TensorStore::restore_from_bytes (clear set ⊆ refill set over fields in use, across all workspace crates)',
+            'field read/write sets over the call graph, whole-workspace who-uses-field scan'),
     'C10': ('§3 C10', 'R01a persist-before-mutate of term/vote (cut-reachability over Ok-edges of the persist call, all write sites '
             'in the workspace), R10a every log growth site reaches success only through a successful persist, R10c recovery '
             'table covers every record the node writes and keeps the first vote of a term, R02b tail repair on reopen, R02e replay '
